@@ -906,12 +906,14 @@ pub fn temporal_acyclic(g: &mut G) -> Scenario {
     let mut clients: Vec<Vec<Op>> = Vec::new();
     let a = 0usize;
     let b = 1usize;
-    let ending = g.below(6); // how A's ask to B ends: 0 reply, 1 timeout, 2 cancelled, 3 callee panics, 4 callee killed, 5 reply after delay
+    // how A's ask to B ends: 0 reply, 1 timeout, 2 cancelled, 3 callee panics, 4 callee killed, 5 reply after delay,
+    // 6 the asker itself unwinds (a sibling branch of a join! panics) while the ask is in flight and the request is queued
+    let ending = g.below(7);
     // B is kept busy so that A's request and B's own trigger queue up behind each other
     let busy = g.range(5, 30);
     // variant: the busy handler itself asks A back at its end - by then A's ask may have timed out or
     // been cancelled while its request is still sitting in B's mailbox
-    let busy_asks_back = (ending == 1 || ending == 2) && g.chance(500);
+    let busy_asks_back = (ending == 1 || ending == 2 || ending == 6) && g.chance(500);
     let mut busy_steps = vec![Op::Sleep(busy)];
     if busy_asks_back {
         let m = Msg::work(g.mid());
@@ -929,6 +931,14 @@ pub fn temporal_acyclic(g: &mut G) -> Scenario {
     let a_ask = match ending {
         1 => Op::AskT { h: 50 + b as u32, m: ping, ms: g.range(1, 4) },
         2 => Op::Cancel { op: Box::new(Op::Ask { h: 50 + b as u32, m: ping }), polls: 1, ms: None },
+        6 => {
+            let ask = ask_variant(g, 50 + b as u32, ping);
+            if g.chance(500) {
+                Op::Join(vec![ask, Op::Panic])
+            } else {
+                Op::Race(vec![ask, Op::Panic])
+            }
+        }
         _ => ask_variant(g, 50 + b as u32, ping),
     };
     let mut a_steps = vec![a_ask];
